@@ -42,6 +42,11 @@ def batch(args):
     dim, criteria, ncon, b = args['dim'], tuple(args['criteria']), args['ncon'], args['b']
     from artap.individual import Individual
     from artap.algorithm import DummyAlgorithm
+    if args.get('after_another_problem'):
+        # state that survives between uses: another Problem object with the OPPOSITE minimise/maximise assignment (and
+        # one more objective) was created earlier in the same process
+        flip = {'minimize': 'maximize', 'maximize': 'minimize', None: 'maximize'}
+        ec.make_problem(dim, tuple(flip[c] for c in criteria) + ('maximize',), 0)
     prob = ec.make_problem(dim, criteria, ncon, bounds=[(-2.0, 3.0)] * dim)
     alg = DummyAlgorithm(prob)
     States = [Individual.State.EMPTY, Individual.State.IN_PROGRESS, Individual.State.EVALUATED, Individual.State.FAILED]
@@ -230,6 +235,10 @@ def configs(tier):
     for ci in ((3,) if tier == 'quick' else (1, 2, 3, 5)):
         out.append({'name': 'batch-b2-dim1-crit%d-con0-objective-returns-ndarray' % ci, 'task': 'batch',
                     'args': {'dim': 1, 'criteria': CRITS[ci], 'ncon': 0, 'b': 2, 'returns': 'ndarray', 'precision': 2},
+                    'weight': 16, 'engine': {'validate': 30}})
+    for ci in ((1, 3) if tier == 'quick' else (0, 1, 2, 3, 4, 5)):
+        out.append({'name': 'batch-b2-dim1-crit%d-con0-after-another-problem' % ci, 'task': 'batch',
+                    'args': {'dim': 1, 'criteria': CRITS[ci], 'ncon': 0, 'b': 2, 'after_another_problem': True},
                     'weight': 16, 'engine': {'validate': 30}})
     nv = 3 if tier == 'quick' else 4
     out.append({'name': 'sweep-%d' % nv, 'task': 'sweep', 'args': {'dim': 2, 'nvec': nv, 'criteria': ('minimize', 'maximize')},
